@@ -146,7 +146,9 @@ def seeded_variants(prop):
                 md = json.load(f)
         except Exception:
             continue
-        props = md.get("detected_by") or [md.get("property")]
+        props = md.get("detected_by")
+        if props is None:
+            props = [md.get("property")]
         if prop not in props:
             continue
         pfile = os.path.join(os.path.dirname(meta), "patch.diff")
